@@ -316,7 +316,7 @@ def table(tier="quick"):
     add("cp_normalize", "tensorly.cp_tensor.cp_normalize", lambda d: (lambda i=cpinit(d): cpt.cp_normalize(i)), fam="FCpNormalize", dts=ALL3, real={".weights"})
     add("cp_flip_sign", "tensorly.cp_tensor.cp_flip_sign", lambda d: (lambda i=cpinit(d): cpt.cp_flip_sign(i)), fam="FFlipSign", dts=ALL3, real={".weights"})
     add("cp_permute_factors", "tensorly.cp_tensor.cp_permute_factors",
-        lambda d: (lambda i=cpinit(d): cpt.cp_permute_factors(CPTensor(i), [CPTensor((i[0].copy(), [f[:, ::-1].copy() for f in i[1]]))])), fam="FIndexed",
+        lambda d: (lambda i=cpinit(d): cpt.cp_permute_factors(CPTensor(i), [CPTensor((i[0].copy(), [f[:, ::-1].copy() for f in i[1]]))])), fam="FPermute",
         exempt={"#1": "permutation indices"})
     add("cp_to_tensor_mask", "tensorly.cp_tensor.cp_to_tensor", lambda d: (lambda i=cpinit(d), m=d.mask(SH, "same"): cpt.cp_to_tensor(i, mask=m)), fam="FPure", dts=ALL3)
     add("cp_to_unfolded_vec", "tensorly.cp_tensor.cp_to_vec", lambda d: (lambda i=cpinit(d): (cpt.cp_to_vec(i), cpt.cp_to_unfolded(i, 1))), fam="FPure", dts=ALL3)
@@ -426,23 +426,32 @@ def operands(k):
     return [np.ones(3, dtype=t), np.ones((), dtype=t), t(1)]
 
 
+def _py_absorbs(x, y):
+    """CPython's own scalar type handles the operation before NumPy is asked: complex.__mul__ accepts any `float`
+    instance, and np.float64 subclasses float, so (1.5+2j) * np.float64(1) is a *Python* complex (no NumPy promotion
+    is involved).  Such pairs are measured through the NumPy ufunc only."""
+    return isinstance(x, complex) and not isinstance(x, np.generic) and isinstance(y, np.generic) and isinstance(y, float)
+
+
 def measure_tables():
-    """(kind, a, b|None, measured class or '?' when the representatives disagree) for the 81 + 81 + 9 entries"""
+    """(kind, a, b|None, measured class or '?' when the representatives disagree) for the 81 + 81 + 9 entries.
+    Every pair of representatives is measured through the Python operators AND the NumPy ufuncs."""
     import operator
     out = []
     for a in ALL_DT:
         for b in ALL_DT:
-            for kind, fns in (("CTab", (operator.mul, operator.add)), ("CDiv", (operator.truediv,))):
+            for kind, fns in (("CTab", ((operator.mul, np.multiply), (operator.add, np.add))), ("CDiv", ((operator.truediv, np.true_divide),))):
                 seen = set()
                 for x in operands(a):
                     for y in operands(b):
-                        for fn in fns:
-                            if kind == "CTab" and a == "B" and b == "B" and fn is operator.add:
-                                pass  # bool + bool stays bool as well
-                            try:
-                                seen.add(classify_value(fn(x, y)))
-                            except Exception as e:  # noqa
-                                seen.add("!" + type(e).__name__)
+                        for op, uf in fns:
+                            strong = isinstance(x, (np.ndarray, np.generic)) or isinstance(y, (np.ndarray, np.generic))
+                            forms = ([] if _py_absorbs(x, y) else [op]) + ([uf] if strong else [])
+                            for fn in forms:
+                                try:
+                                    seen.add(classify_value(fn(x, y)))
+                                except Exception as e:  # noqa
+                                    seen.add("!" + type(e).__name__)
                 out.append((kind, a, b, seen.pop() if len(seen) == 1 else "?" + repr(sorted(map(str, seen)))))
         seen = set()
         for x in operands(a):
@@ -541,26 +550,56 @@ def linesearch_probe(dt):
     X = d.collinear()
     buf = io.StringIO()
     with contextlib.redirect_stdout(buf):
-        st, v = C.call_impl(lambda: dec.parafac(X, 3, n_iter_max=30, tol=0, linesearch=True, init="random", random_state=3, verbose=1), timeout=60)
+        st, v = C.call_impl(lambda: dec.parafac(X, 3, n_iter_max=30, tol=0, linesearch=True, init="random", random_state=3, verbose=1, return_errors=True), timeout=120)
     return buf.getvalue().count("Accepted line search jump") if st == "ok" else -1
 
 
 # ---- known-finding classifiers (predicates on the failing input)
+def _double_of(dt):
+    return {"float32": "float64", "complex64": "complex128"}.get(dt)
+
+
 def clf_mask(f):
+    """a caller-supplied boolean / integer mask together with single-precision data, every offending array being the
+    double-precision type of the same kind (or its real type)"""
     i = f["inputs"]
     m = i.get("mask_dtype")
-    return m is not None and np.dtype(m).kind in "biu" and i["dtype"] in ("float32", "complex64") \
-        and all(o == "float64" for _, o, _ in i["failures"])
+    dbl = _double_of(i.get("dtype"))
+    return m is not None and np.dtype(m).kind in "biu" and dbl is not None and bool(i.get("failures")) \
+        and all(o in (dbl, real_dtype(dbl)) for _, o, _ in i["failures"])
 
 
 def clf_active_set(f):
+    """a warm start whose passive block (rows/columns of UtU where x > 0) is singular, single-precision problem data"""
     i = f["inputs"]
-    return bool(i.get("x_given")) and bool(i.get("passive_block_singular")) and i["dtype"] == "float32" \
-        and all(o == "float64" for _, o, _ in i["failures"])
+    dbl = _double_of(i.get("dtype"))
+    return bool(i.get("x_given")) and bool(i.get("passive_block_singular")) and dbl is not None and bool(i.get("failures")) \
+        and all(o == dbl for _, o, _ in i["failures"])
 
 
 CLASSIFIERS = {"mask_bool_or_int_with_single_precision_data": clf_mask,
-               "warm_start_with_singular_passive_block_float32": clf_active_set}
+               "warm_start_with_singular_passive_block_single_precision": clf_active_set}
+
+
+def _install_known_loader():
+    """known_findings.json is assembled by the coordinator from known_findings.d/*.json; read this property's own snippet
+    as well so that the check classifies identically before and after that merge (local helper, common.py untouched)"""
+    import json, os
+    orig = C.load_known
+    if getattr(orig, "_c18", False):
+        return
+
+    def load(prop):
+        known = list(orig(prop))
+        p = os.path.join(C.VERIF, "known_findings.d", f"{prop}.json")
+        if prop == "C18" and os.path.exists(p):
+            ids = {k.get("id") for k in known}
+            for k in json.load(open(p)).get("findings", []):
+                if k.get("property") == prop and k.get("id") not in ids:
+                    known.append(k)
+        return known
+    load._c18 = True
+    C.load_known = load
 
 
 def dtypes_for(t, tier):
@@ -651,6 +690,7 @@ def run(chk):
                        "a floating-point mask of another precision than the data counts as input data (expected dtype = their promotion)",
                        "real-valued-by-definition outputs (errors, norms, singular values, |weights|) of complex input are expected in the real type of the same precision"]
     chk.trusted = ["NumPy's dtype attribute of the returned arrays", "table of entry-point configurations (harness/props/C18.py) as the universe of 'public entry points'"]
+    _install_known_loader()
     return chk.finish(CLASSIFIERS)
 
 
